@@ -10,6 +10,7 @@ from prop import run_workers
 import gen as sgen
 a,b,kind=int(sys.argv[1]),int(sys.argv[2]),sys.argv[3]
 drv=sys.argv[4] if len(sys.argv)>4 else 'C26'
+use_input=lambda r: {'graph':r['graph'],'ops':r['ops']}
 cases=[sgen.gen_case(s,kind) for s in range(a,b)]
 res=run_workers(cases,16)
 ok=[r for r in res if 'error' not in r]
